@@ -32,7 +32,11 @@ DIRNAMES = ['pkga', 'pkgb', 'sub', 'tests', '__pycache__', '.git', 'CVS', 'node_
 FILENAMES = ['mod.py', 'mod.pyc', 'mod.pyo', 'old.pyc', 'old.pyo', 'x.pyc.bak', '.pyc', 'pyc',
              'X.PYC', 'notes.txt', 'data.pycx', '__init__.py', '__init__.pyc', 'test_a.py',
              'test_a.pyc', 'tests.py', '.pyo', 'a.b.pyc', 'a.b.py', 'gone.pyc', 'Mod.pyc',
-             'mod.py~', 'oldpyc', 'z.pyo']
+             'mod.py~', 'oldpyc', 'z.pyo',
+             # names that sort between x.py and x.pyc / x.pyo
+             'mod.py.orig', 'mod.py,cover', 'mod.py2', 'mod.pyc.bak', 'mod.py-', 'mod.pyb',
+             'test_a.py.rej', 'test_a.pyc~', 'mod.py.pyc', 'mod.pyi']
+LINKNAMES = ['lnk', 'shared', '__pycache__', 'ln-k', '.git', 'skipme', 'CVS', 'tests']
 DEFAULT_IGNORE = ['.git', '.svn', 'CVS', '{arch}', '.arch-ids', '_darcs']
 
 
@@ -56,6 +60,19 @@ def gen_tree(rng, name, depth, budget):
 def gen(seed):
     rng = random.Random(seed)
     tree = gen_tree(rng, 'root', 0, [40])
+    ext = None
+    if rng.random() < 0.3:
+        # a second tree outside every search path, reached through symbolic links only
+        ext = gen_tree(rng, 'ext', 1, [14])
+        targets = [rel for rel, node in fssim.walk_tree(ext)]
+        rng.shuffle(targets)
+        hosts = [node for rel, node in fssim.walk_tree(tree)]
+        for target in targets[:rng.randint(1, 3)]:
+            host = rng.choice(hosts)
+            free = [n for n in LINKNAMES if n not in (host.get('links') or {})
+                    and n not in [d['name'] for d in host['dirs']] and n not in host['files']]
+            if free:
+                host.setdefault('links', {})[rng.choice(free)] = target
     subdirs = [rel for rel, node in fssim.walk_tree(tree) if rel != 'root'
                and not any(p in ('__pycache__',) for p in rel.split('/'))]
     roots = [('path', 'root')]
@@ -76,17 +93,22 @@ def gen(seed):
     faults = {}
     if rng.random() < 0.25:
         faults[str(rng.randint(1, 4))] = rng.choice(['FileNotFoundError', 'PermissionError'])
-    return {'property': ID, 'seed': seed, 'tree': tree, 'opt': opt, 'faults': faults,
+    spec = {'property': ID, 'seed': seed, 'tree': tree, 'opt': opt, 'faults': faults,
             'world': {'layers': [], 'modules': []}, 'plan': [], 'knobs': {},
             'sched': {'prng': seed}}
+    if ext is not None:
+        spec['ext'] = ext
+    return spec
 
 
-def model_orphans(tree, opt):
+def model_orphans(tree, opt, ext=None):
     """Relative paths the statement says must be deleted."""
     if opt.get('keep') or opt.get('usecompiled'):
         return set()
     ignore = set(DEFAULT_IGNORE) | set(opt.get('ignore_dir') or [])
     nodes = dict(fssim.walk_tree(tree))
+    if ext is not None:
+        nodes.update(fssim.walk_tree(ext))
     out = set()
 
     def visit(rel, node):
@@ -94,10 +116,13 @@ def model_orphans(tree, opt):
         for f in files:
             if (f.endswith('.pyc') or f.endswith('.pyo')) and f[:-1] not in files:
                 out.add(rel + '/' + f)
-        for d in node['dirs']:
-            if d['name'] in ignore or d['name'] == '__pycache__':
+        for name, child, is_link in fssim.children(node, nodes):
+            if name in ignore or name == '__pycache__':
                 continue
-            visit(rel + '/' + d['name'], d)
+            # a symlinked directory is searched like any other; what is deleted there is
+            # reported under its real path
+            real = (node['links'][name] if is_link else rel + '/' + name)
+            visit(real, child)
 
     for _, r in opt['roots']:
         visit(r, nodes[r])
@@ -117,6 +142,8 @@ def lookalikes(tree):
 def run(spec, ctx):
     import zope.testrunner.find as ZF
     rng = random.Random(spec['seed'] * 31 + 7)
+    if spec.get('ext') is not None:
+        fssim.materialise(spec['ext'], ctx.scratch, order_rng=rng)
     base = fssim.materialise(spec['tree'], ctx.scratch, order_rng=rng)
     top = ctx.scratch
     opt = spec['opt']
@@ -131,19 +158,19 @@ def run(spec, ctx):
         args += ['--ignore_dir', d]
     args.append('--list-tests')
     simos = fssim.SimOS(rng, {int(k): v for k, v in spec.get('faults', {}).items()})
-    before = fssim.snapshot(base)
+    before = fssim.snapshot(top)
     old = ZF.os
     ZF.os = simos
     try:
         res = core.execute(spec, args)
     finally:
         ZF.os = old
-    after = fssim.snapshot(base)
+    after = fssim.snapshot(top)
     rel = lambda p: os.path.relpath(p.rstrip('/'), top)  # noqa: E731
     deleted = {rel(p) for p in before if p not in after}
     created = {rel(p) for p in after if p not in before}
     modified = {rel(p) for p in before if p in after and before[p] != after[p]}
-    want = model_orphans(spec['tree'], opt)
+    want = model_orphans(spec['tree'], opt, spec.get('ext'))
     viols = []
     faulted = simos.unlink_attempts >= min([int(k) for k in spec.get('faults', {})] or [10 ** 9])
     mode = 'keep' if (opt.get('keep') or opt.get('usecompiled')) else 'clean'
